@@ -34,6 +34,7 @@ type Scope struct {
 
 	cid        string
 	closed     bool
+	finished   bool
 	closeStack string
 	mu         sync.Mutex
 	parent     app.Scope
@@ -138,6 +139,7 @@ func (scp *Scope) close() {
 	if scp.parent != nil && scp.parentTask {
 		scp.parent.DoneTask()
 	}
+	scp.finished = true
 	scp.DataScope = nil
 	scp.EventScope = nil
 	scp.Injector = nil
@@ -229,7 +231,7 @@ func (scp *Scope) BaseInjector() app.Injector {
 }
 
 func (scp *Scope) preventClosed() {
-	if scp.closed {
+	if scp.finished {
 		panic(goaterr.Errorf("scope [%s] is closed at:\n%s", scp.sid, scp.closeStack))
 	}
 }
